@@ -219,7 +219,13 @@ func checkFileFrames(d *decFile, sent sentIndex, cam pCamera) string {
 }
 
 func TestVerif_C14Pipe(t *testing.T) {
-	c := vStart(t, "C14", "TestVerif_C14Pipe")
+	// also a job of C13 (bad frames through the real socket loop: rejected, nothing of them
+	// stored, recording ended, processing resumes with the next frame, valid frames exact)
+	prop := vEnv("VERIF_PROP", "C14")
+	if prop != "C13" {
+		prop = "C14"
+	}
+	c := vStart(t, prop, "TestVerif_C14Pipe")
 	defer c.Finish()
 	scratch := vEnv("VERIF_SCRATCH", t.TempDir())
 	n := c.N(160, 6000)
@@ -242,6 +248,10 @@ func TestVerif_C14Pipe(t *testing.T) {
 			nf = fileLen * 2
 		}
 		o := streamOpts{Frames: nf, Clears: rng.Range(0, 5), MotionPct: rng.PickInt(20, 60, 100), ClearFirst: rng.Chance(10), ClearLast: rng.Chance(10), DoubleClr: rng.Chance(15)}
+		if idx%3 == 2 {
+			// rejected frames must not cost frame alignment either
+			o.BadPct = rng.PickInt(2, 5, 10)
+		}
 		frames := genStream(rng, cam, edge, o)
 		cw := &chunkWriter{rng: rng, mode: rng.PickInt(0, 0, 0, 1, 2)}
 		if cam.ResX > 100 && cw.mode == 1 {
@@ -254,6 +264,8 @@ func TestVerif_C14Pipe(t *testing.T) {
 				switch {
 				case f.Clear:
 					evs += "C"
+				case f.Bad:
+					evs += "B"
 				case f.MotionAimed:
 					evs += "m"
 				default:
@@ -382,6 +394,11 @@ func TestVerif_C14Pipe(t *testing.T) {
 			c.Count("connections", 1)
 			c.Count("frames_sent", int64(nFrames))
 			c.Count("clear_markers", int64(nClears))
+			for _, f := range frames {
+				if f.Bad {
+					c.Count("bad_frames_in_streams", 1)
+				}
+			}
 			c.Count("socket_writes", cw.cuts)
 			for _, f := range frames {
 				if f.MarkerLike {
